@@ -8632,7 +8632,8 @@ func (p *parser) generateTempRef(declare generateTempRefArg, optionalName string
 		}
 	}
 
-	if optionalName == "" {
+	isAutoNamed := optionalName == ""
+	if isAutoNamed {
 		optionalName = "_" + ast.DefaultNameMinifierJS.NumberToMinifiedName(p.tempRefCount)
 		p.tempRefCount++
 	}
@@ -8642,6 +8643,16 @@ func (p *parser) generateTempRef(declare generateTempRefArg, optionalName string
 		p.tempLetsToDeclare = append(p.tempLetsToDeclare, ref)
 	} else if declare != tempRefNoDeclare {
 		p.tempRefsToDeclare = append(p.tempRefsToDeclare, tempRef{ref: ref})
+	} else if isAutoNamed && scope == p.moduleScope {
+		// The caller declares this temporary inline (e.g. "for (var _a of b)").
+		// At the top level it has to be recorded as a declared top-level symbol,
+		// otherwise the renamer never sees it and it can end up with the name of
+		// another top-level symbol. The "_a", "_b", ... sequence is also used by
+		// "generateTopLevelTempRef" (e.g. for tagged template literals).
+		p.currentPart.DeclaredSymbols = append(p.currentPart.DeclaredSymbols, js_ast.DeclaredSymbol{
+			Ref:        ref,
+			IsTopLevel: true,
+		})
 	}
 
 	scope.Generated = append(scope.Generated, ref)
